@@ -49,38 +49,50 @@ def generate(scen, c, num, depth, seed, late):
         shutil.rmtree(tmp, ignore_errors=True)
 
 
+def _replay_job(job):
+    b, jit, U, framing, pieces, scen, n, run_seed, threaded, work = job
+    run = conn_replay.Run(scen, n, U, seed=run_seed, framing=framing, pieces=pieces, jitter=jit, threaded=threaded, work=work)
+    run.play(b, compare=not jit and not threaded and work is None)
+    evs = run.finish()
+    trace = {'mode': 'tunnel' if scen == 'tunnel' else 'http', 'ev': evs, 'exec': 'threaded' if threaded else 'threadless'}
+    if work:
+        trace['work'] = work
+    info = {'scen': scen, 'U': U, 'framing': run.framing if scen == 'http' else None, 'pieces': pieces, 'jitter': jit,
+            'mode': 'threaded' if threaded else 'threadless', 'work': work or 'HttpProtocolHandler',
+            'schedule': [a for a, _, _ in b][1:], 'consts': n, 'run_seed': run.seed,
+            'client_got': len(run.c.got), 'client_eof': run.c.eof_seen, 'loop_alive': run.sim.alive}
+    if not run.sim.alive:
+        info['loop_error'] = repr(run.sim.loop_error)
+    return trace, info, (dict(run.drift) if run.drift is not None else None)
+
+
 def replay_all(behs, scen, c, units, seed, framings=('cl',), jitter=True, threaded=False, work=None):
-    """Run every behaviour on the real stack.  -> (traces for TraceConn, drift list, run infos)"""
+    """Run every behaviour on the real stack (in worker processes).  -> (traces for TraceConn, drift list, run infos)"""
+    from harness.common import pmap, Hung, MachineryError as ME
     rnd = random.Random(seed)
     traces, drifts, infos = [], [], []
     n = {'N': c['N'], 'CAP': c['CAP'], 'MAXSEND': c['MAXSEND'], 'RECV': c['RECV'], 'OWN': c['OWN']}
     todo = [(b, False) for b in behs] + ([(b, True) for b in behs] if jitter else [])
     if threaded:
         todo = [(b, False) for b in behs]
+    jobs = []
     for k, (b, jit) in enumerate(todo):
         U = units[k % len(units)]
         framing = framings[(k // len(units)) % len(framings)]
-        pieces = 1
-        if scen == 'reject':
-            pieces = len(b[0][2]['cbuf'])
-        run = conn_replay.Run(scen, n, U, seed=rnd.randrange(1 << 30), framing=framing, pieces=pieces, jitter=jit, threaded=threaded, work=work)
-        run.play(b, compare=not jit and not threaded and work is None)
-        evs = run.finish()
+        pieces = len(b[0][2]['cbuf']) if scen == 'reject' else 1
+        jobs.append((b, jit, U, framing, pieces, scen, n, rnd.randrange(1 << 30), threaded, work))
+    for job, res in zip(jobs, pmap(_replay_job, jobs, chunksize=4, watchdog=600)):
+        if isinstance(res, Hung):
+            raise ME('replay of schedule %s (%s, unit %d) was still running after 600 s, in %s' % (
+                [a for a, _, _ in job[0]][1:], scen, job[2], [ln.strip() for ln in res.where.splitlines() if 'File' in ln][-2:]))
+        trace, info, drift = res
         tid = len(traces) + 1
-        traces.append({'id': tid, 'mode': 'tunnel' if scen == 'tunnel' else 'http', 'ev': evs, 'exec': 'threaded' if threaded else 'threadless'})
-        if work:
-            traces[-1]['work'] = work
-        info = {'id': tid, 'scen': scen, 'U': U, 'framing': run.framing if scen == 'http' else None, 'pieces': pieces, 'jitter': jit, 'mode': 'threaded' if threaded else 'threadless', 'work': work or 'HttpProtocolHandler',
-                'schedule': [a for a, _, _ in b][1:], 'consts': n, 'run_seed': run.seed,
-                'client_got': len(run.c.got), 'client_eof': run.c.eof_seen,
-                'loop_alive': run.sim.alive}
+        trace['id'] = info['id'] = tid
+        traces.append(trace)
         infos.append(info)
-        if run.drift is not None:
-            d = dict(run.drift)
-            d['id'] = tid
-            drifts.append(d)
-        if not run.sim.alive:
-            info['loop_error'] = repr(run.sim.loop_error)
+        if drift is not None:
+            drift['id'] = tid
+            drifts.append(drift)
     return traces, drifts, infos
 
 
